@@ -42,7 +42,7 @@ def collect(seed):
     meta = {
         'id': sid,
         'breaks_property': pid,
-        'round': {'A': 1, 'B': 1, 'C': 2, 'D': 3}.get(letter, 1),
+        'round': ({'A': 1, 'B': 1, 'C': 2}.get(letter) or (4 if pid in ('C09', 'C10', 'C16', 'C17', 'C18', 'C20') else 3)),
         'title': title,
         'author': 'independent sub-agent given only the property text and its own scratch worktree',
         'which_part_breaks': section(notes, r'Which part')[:2500],
@@ -111,7 +111,25 @@ def table():
     print('table: %d rows, %d caught, %d undecided, %d missed' % (n, caught, undec, missed))
 
 
+def update(sdir):
+    """refresh check_result in seeded/<id>/meta.json from a new seed_batch run on that directory"""
+    sdir = sdir.rstrip('/')
+    m = json.load(open(os.path.join(sdir, 'meta.json')))
+    cr = json.load(open(os.path.join(sdir, 'check_result.json')))
+    m['check_result'] = {
+        'command': './check %s %s' % (m['breaks_property'], cr.get('tier', 'quick')),
+        'exit': cr.get('exit'), 'refuted_obligations': cr.get('refuted', []), 'lines': cr.get('lines', []),
+        'sample_replay': cr.get('sample_replay'), 'wall_s': cr.get('wall_s'), 'repo_head': cr.get('head'), 'verif_head': cr.get('verif_head'),
+    }
+    json.dump(m, open(os.path.join(sdir, 'meta.json'), 'w'), indent=1)
+
+
 if __name__ == '__main__':
+    if sys.argv[1:2] == ['--update']:
+        for s_ in sys.argv[2:]:
+            update(s_)
+        table()
+        sys.exit(0)
     if sys.argv[1:] != ['--table']:
         for s in sys.argv[1:]:
             collect(s)
